@@ -84,6 +84,30 @@ def scan_file(path, rel):
                         if isinstance(x, ast.Name) and isinstance(x.ctx, ast.Store):
                             local.add(x.id)
         shared_root = lambda r: r is not None and r not in local and (r in module_names or r == "cls")
+        # local names bound DIRECTLY to a shared object (x = GLOBAL, x = cls.attr, x = module.GLOBAL): mutating x mutates the shared object
+        aliases = {}
+        for n in ast.walk(fn):
+            if isinstance(n, ast.Assign) and len(n.targets) == 1 and isinstance(n.targets[0], ast.Name):
+                v = n.value
+                plain = isinstance(v, ast.Name) or (isinstance(v, ast.Attribute) and all(isinstance(y, (ast.Attribute, ast.Name, ast.Load)) for y in ast.walk(v)))
+                if plain and shared_root(root_name(v)):
+                    aliases[n.targets[0].id] = ast.unparse(v)[:40]
+        for d in fn.decorator_list:
+            dn = ast.unparse(d)
+            if "lru_cache" in dn or dn.split("(")[0].split(".")[-1] in ("cache", "cached_property"):
+                writes.append((rel, qual, fn.lineno, "memoising decorator " + dn[:40]))
+        for n in ast.walk(fn):
+            if isinstance(n, ast.AugAssign) and isinstance(n.target, ast.Name) and n.target.id in aliases:
+                writes.append((rel, qual, n.lineno, "augmented assignment to %s, an alias of shared %s" % (n.target.id, aliases[n.target.id])))
+            if isinstance(n, (ast.Assign, ast.AugAssign, ast.AnnAssign, ast.Delete)):
+                tg = n.targets if isinstance(n, (ast.Assign, ast.Delete)) else [n.target]
+                for t in tg:
+                    for x in ([t] if not isinstance(t, (ast.Tuple, ast.List)) else t.elts):
+                        if isinstance(x, (ast.Attribute, ast.Subscript)) and root_name(x) in aliases:
+                            writes.append((rel, qual, n.lineno, "store through %s, an alias of shared %s" % (root_name(x), aliases[root_name(x)])))
+            if isinstance(n, ast.Call) and isinstance(n.func, ast.Attribute) and n.func.attr in MUTATORS and root_name(n.func.value) in aliases:
+                r0 = root_name(n.func.value)
+                writes.append((rel, qual, n.lineno, "mutating call %s through an alias of shared %s" % (ast.unparse(n.func)[:40], aliases[r0])))
         for n in ast.walk(fn):
             if isinstance(n, (ast.Global, ast.Nonlocal)):
                 writes.append((rel, qual, n.lineno, "global/nonlocal " + ",".join(n.names)))
